@@ -7,6 +7,7 @@ import (
 	"io"
 	"os"
 	"path/filepath"
+	"strconv"
 	"strings"
 	"sync"
 
@@ -192,7 +193,24 @@ func (s *syncStandaloneRegistry) getTestID(snapPath, snapPathRel string) (string
 	c := s.running[snapPath]
 	s.Unlock()
 
-	return fmt.Sprintf(snapPath, c), fmt.Sprintf(snapPathRel, c)
+	return standaloneSnapPath(snapPath, c), standaloneSnapPath(snapPathRel, c)
+}
+
+// standaloneSnapPath replaces the occurrence placeholder added by constructFilename with c.
+//
+// The path is not used as a format string as test names and directories can contain '%'.
+func standaloneSnapPath(snapPath string, c int) string {
+	const placeholder = "%d"
+	// the placeholder sits right before the `.snap` extension
+	i := strings.LastIndex(snapPath, placeholder+snapsExt)
+	if i == -1 {
+		i = strings.LastIndex(snapPath, placeholder)
+	}
+	if i == -1 {
+		return snapPath
+	}
+
+	return snapPath[:i] + strconv.Itoa(c) + snapPath[i+len(placeholder):]
 }
 
 func (s *syncStandaloneRegistry) reset(snapPath string) {
